@@ -244,6 +244,31 @@ def enum_cases(tier):
             yield {"ops": [["create", "tA"]] + [alphabet[c] for c in combo]}
 
 
+def token_kind_cases(tier):
+    """Explicit tokens of different types that print alike (7 and "7", 1.5 and "1.5"): separately created locks, each may be
+    copied / pickled, then contended for."""
+    alphabet = [
+        ["create", 7],
+        ["create", "7"],
+        ["create", 1.5],
+        ["create", "1.5"],
+        ["copy", 0, "pickle", 1],
+        ["copy", 1, "deepcopy", 1],
+        ["acquire", 0],
+        ["acquire", 1],
+        ["acquire_thread", 1],
+        ["release", 0],
+        ["drop", 0],
+    ]
+    maxlen = 4 if tier == "quick" else 5
+    for first in (["create", 7], ["create", "7"], ["create", "1.5"]):
+        for n in range(1, maxlen):
+            for combo in itertools.product(range(len(alphabet)), repeat=n):
+                ops = [alphabet[c] for c in combo]
+                if any(o[0] == "create" for o in ops):
+                    yield {"ops": [first] + ops}
+
+
 @st.composite
 def history(draw):
     ops = [["create", draw(st.sampled_from([None, "tA", "tB"]))]]
@@ -263,5 +288,6 @@ def history(draw):
 SUBCHECKS = [
     Sub("enum", check, kind="enum", cases=enum_cases, nontrivial=nontrivial, classes=classes, exhaustive=True, shards=1, doc="all histories up to length 4 (quick) / 5 over a 10-op alphabet"),
     Sub("payloads", check, kind="enum", cases=payload_cases, nontrivial=nontrivial, classes=classes, exhaustive=True, shards=8, doc="dump a lock, drop handles, load the payload repeatedly, contend: create, dump, (drop,) load followed by every tail up to length 4 (quick) / 5 over a 7-op alphabet"),
+    Sub("token-kinds", check, kind="enum", cases=token_kind_cases, nontrivial=lambda c: len({str(o[1]) for o in c["ops"] if o[0] == "create"}) < len({repr(o[1]) for o in c["ops"] if o[0] == "create"}) and any(o[0].startswith("acquire") for o in c["ops"]), classes=classes, exhaustive=True, shards=4, doc="histories up to length 4 (quick) / 5 with at least two creations over explicit tokens 7, '7', 1.5, '1.5' (different values that print alike)"),
     Sub("histories", check, strategy=lambda tier: history(), n={"quick": 3000, "thorough": 60000}, nontrivial=nontrivial, classes=classes, shards=4, doc="random histories up to 15 ops"),
 ]
